@@ -117,4 +117,6 @@ func (Precompile).Transfer
     // EVM denomination. FINDING F5: no mirror when the signer's funds are sent through a calling contract
     ensures c02_mirrored: result.1 == nil ==> sdb_delta == ite(M.Token.Denom == bond_denom(oldheap(*p.stakingKeeper.Keeper), ctx),
             upd(old(sdb_delta), sender, old(sdb_delta)[sender] - M.Token.Amount), old(sdb_delta))
+    // ---- C05: as for staking.Delegate (FINDING F6)
+    ensures c05_undoable: result.1 == nil ==> cstate == old(cstate)
 @*/
